@@ -176,7 +176,8 @@ func matrix(args []string) {
 	for _, n := range lens {
 		conts = append(conts, cont{"arr", n})
 	}
-	nonArr := []cont{{"obj", 0}, {"obj", 2}, {"obj", 3}, {"scalar", 0}, {"null", 0}}
+	// {"obj", 4} has a null member under key "d" (mixed shape): a present null member must not be taken for an absent one
+	nonArr := []cont{{"obj", 0}, {"obj", 2}, {"obj", 3}, {"obj", 4}, {"scalar", 0}, {"null", 0}}
 	// place one focus fragment in every position over one container
 	place := func(focus jl.Frag, ct cont, lastShapes []string, variant int) {
 		c := &ctr{n: 100}
@@ -229,7 +230,7 @@ func matrix(args []string) {
 		}
 	}
 	// child
-	for _, k := range []string{"a", "b", "c", "zz"} {
+	for _, k := range []string{"a", "b", "c", "d", "zz"} {
 		for _, ct := range all {
 			v++
 			place(jl.FChild(k), ct, []string{"mixed"}, v)
@@ -244,7 +245,7 @@ func matrix(args []string) {
 	}
 	// unions: ints, keys, mixed, repeated, out of range
 	unions := [][]any{{0}, {-1}, {0, 1}, {1, 0}, {2, 0, 1}, {-1, 0}, {0, -1}, {0, 0}, {1, 1, 0}, {5, 0}, {-7, 1}, {7, -7}, {0, 2, 4},
-		{"a"}, {"a", "b"}, {"b", "a"}, {"c", "a", "b"}, {"a", "a"}, {"zz", "a"}, {"a", 0}, {0, "a"}, {"b", 1, "a", 0}, {-2, "c", 1}}
+		{"a"}, {"a", "b"}, {"b", "a"}, {"c", "a", "b"}, {"a", "a"}, {"zz", "a"}, {"a", 0}, {0, "a"}, {"b", 1, "a", 0}, {-2, "c", 1}, {"d"}, {"d", "a"}}
 	for _, u := range unions {
 		for _, ct := range all {
 			v++
